@@ -72,7 +72,9 @@ func c05ServerRun(e *Env) {
 				return
 			}
 			for _, r := range reqs {
-				if r.peer == i && (m.MID == r.mid || bytes.Equal(m.Token, []byte{0x5c, byte(indexOfReq(reqs, r))})) && m.Code != 0 {
+				// replies are attributed by token (every request has its own); the message ID of a reply to a
+				// non-confirmable request is the server's and may coincide with some request's
+				if r.peer == i && bytes.Equal(m.Token, []byte{0x5c, byte(indexOfReq(reqs, r))}) && m.Code != 0 {
 					r.replies = append(r.replies, m)
 				}
 			}
